@@ -82,6 +82,9 @@ pub struct H2BlockConverter<'a> {
     /// `ConnectionH2` clears its own mirror only after confirming the signal
     /// reached the wire (see `size_update_emitted` below).
     pub pending_table_size_update: Option<u32>,
+    /// Smallest table size set by the peer since the last header block; emitted
+    /// before [`Self::pending_table_size_update`] when it is smaller (RFC 7541 §4.2).
+    pub pending_table_size_min: Option<u32>,
     /// `true` once [`emit_pending_size_update_if_new_block`] has actually
     /// written a size-update prefix into `self.out` during this write pass.
     /// The caller in `ConnectionH2::write_streams` reads this flag to know
@@ -114,6 +117,16 @@ impl H2BlockConverter<'_> {
             return;
         }
         if let Some(new_size) = self.pending_table_size_update.take() {
+            // RFC 7541 §4.2: when the size changed more than once since the last
+            // header block, the smallest size comes first, then the final one.
+            if let Some(low) = self.pending_table_size_min.take().filter(|low| *low < new_size) {
+                if loona_hpack::encoder::encode_integer_into(low as usize, 5, 0x20, &mut self.out).is_err() {
+                    self.out.clear();
+                    self.pending_table_size_min = Some(low);
+                    self.pending_table_size_update = Some(new_size);
+                    return;
+                }
+            }
             if let Err(e) =
                 loona_hpack::encoder::encode_integer_into(new_size as usize, 5, 0x20, &mut self.out)
             {
@@ -716,6 +729,7 @@ mod tests {
             // in the default test converter. Tests that exercise the
             // dynamic-table-size-update path set this explicitly.
             pending_table_size_update: None,
+            pending_table_size_min: None,
             size_update_emitted: false,
             pending_oversized_abort: false,
         }
